@@ -83,6 +83,17 @@ CHECKS = {
          "LZHUF codec is the library's (C07 covers codec independence); H is read as deferral, E is not sent, lines end in CR only.",
     technique="independent scripted peer + lexer as judge; TLC trace validation against the TLA+ protocol monitor",
     design="4 C05"),
+ "C16": dict(
+    level="model_checking",
+    text="A real slave Session answers ;PQ challenges of the scripted master (digit, non-digit, short, long challenges; passwords with "
+         "arbitrary printable bytes, spaces, Latin-1; 0-3 auxiliary addresses with/without password; callback absent / failing), 16 "
+         "handshakes concurrently. The lexed ;FW and ;PR lines plus the MD5 digests computed by the harness form one Login event per "
+         "handshake; TLC evaluates the response arithmetic of Secure.tla (30-bit little-endian value, last eight decimal digits, zero "
+         "padded), the aux-address tokens, ;PR-before-first-command, failure without callback, and PasswordNeverOnWire.",
+    note="Trusted: TLC, crypto/md5, the wire lexer; salt.json is tied to Secure.tla's Salt by an ASSUME and anchored by the repository's "
+         "published vector. An empty ;PQ challenge is C03's subject (robustness), not judged here.",
+    technique="executable TLA+ arithmetic specification evaluated by TLC over recorded real handshakes",
+    design="4 C16"),
 }
 
 NOT_YET = "check not built yet (work in progress; see DESIGN.md section 8 for the build order)"
